@@ -3,7 +3,7 @@
 package core
 
 // C20 correspondence harness, server side (injected with `go test -overlay`): the real rpc/core
-// handlers (Tx with prove, Block, BlockByHash, BlockchainInfo, BlockResults) over a real block
+// handlers (Tx and TxSearch with prove, Block, BlockByHash, BlockchainInfo, BlockResults) over a real block
 // store, transaction index and state store holding a generated chain, answering the real
 // light/rpc.Client (every answer passes a JSON round trip, as over HTTP) whose light client is a
 // stub serving the stored headers.  Every case is an HONEST answer: it must be relayed, and the
@@ -74,6 +74,9 @@ func (c20sNode) BlockResults(ctx context.Context, h *int64) (*ctypes.ResultBlock
 func (c20sNode) Tx(ctx context.Context, hash []byte, prove bool) (*ctypes.ResultTx, error) {
 	return c20sWire(Tx(&rpctypes.Context{}, hash, prove))
 }
+func (c20sNode) TxSearch(ctx context.Context, query string, prove bool, page, perPage *int, orderBy string) (*ctypes.ResultTxSearch, error) {
+	return c20sWire(TxSearch(&rpctypes.Context{}, query, prove, page, perPage, orderBy))
+}
 func (c20sNode) Status(ctx context.Context) (*ctypes.ResultStatus, error) {
 	return &ctypes.ResultStatus{SyncInfo: ctypes.SyncInfo{LatestBlockHeight: env.BlockStore.Height()}}, nil
 }
@@ -120,10 +123,18 @@ func (l *c20sLC) term() string {
 		}
 		hd := lb.Header
 		tab = append(tab, vg.Tup(vg.Tup(vg.Z(hd.Height), vg.Hx(hd.Hash()), `""`, vg.Hx(hd.DataHash), `""`,
-			vg.Hx(hd.ConsensusHash), vg.Hx(hd.AppHash), vg.Hx(hd.LastResultsHash)), vg.Hx(lb.Commit.Hash()), "[]"))
+			vg.Hx(hd.ConsensusHash), vg.Hx(hd.AppHash), vg.Hx(hd.LastResultsHash)), vg.Hx(lb.Commit.Hash()),
+			vg.Tup(vg.Hx(lb.Commit.BlockID.Hash), c20sPSHTerm(lb.Commit.BlockID.PartSetHeader)), "[]"))
 		tr = append(tr, h)
 	}
 	return vg.Tup(vg.L(tab), vg.ZL(tr), vg.Z(env.BlockStore.Height()))
+}
+
+func c20sPSHTerm(p types.PartSetHeader) string { return vg.Tup(vg.Z(int64(p.Total)), vg.Hx(p.Hash)) }
+
+func c20sTxTerm(view *ctypes.ResultTx) string {
+	return vg.Tup(vg.Hx(view.Hash), vg.Z(view.Height), vg.Z(int64(view.Index)), vg.Hx(view.Tx),
+		vg.Tup(vg.Hx(view.Proof.RootHash), vg.Hx(view.Proof.Data), c20sProofTerm(view.Proof.Proof)))
 }
 
 func c20sHdrTerm(h *types.Header, hash []byte) string {
@@ -264,7 +275,8 @@ func TestVerifC20Server(t *testing.T) {
 					return e
 				})
 				cs.Add(id, "server/block", true,
-					vg.App("CBlock", lc.term(), vg.B(view.BlockID.ValidateBasic() == nil), vg.Hx(view.BlockID.Hash), c20sBlockTerm(view.Block),
+					vg.App("CBlock", lc.term(), vg.B(view.BlockID.ValidateBasic() == nil), vg.Hx(view.BlockID.Hash),
+						c20sPSHTerm(view.BlockID.PartSetHeader), c20sBlockTerm(view.Block),
 						vg.B(relayed), vg.L(calls), vg.B(true)),
 					fmt.Sprintf("server chain#%d(n=%d): rpc/core Block(byHash=%v) for height %d (%d txs) through light/rpc.Client; relayed=%v err=%q", k, n, byHash, h, len(txsB), relayed, msg))
 			}
@@ -300,10 +312,7 @@ func TestVerifC20Server(t *testing.T) {
 				relayed, calls, msg := c20sRun(lc, func() error { _, e := cl.Tx(bg, tx.Hash(), true); return e })
 				if cs.Want(id) {
 					cs.Add(id, "server/tx", true,
-						vg.App("CTx", lc.term(), vg.B(true),
-							vg.Tup(vg.Hx(view.Hash), vg.Z(view.Height), vg.Z(int64(view.Index)), vg.Hx(view.Tx),
-								vg.Tup(vg.Hx(view.Proof.RootHash), vg.Hx(view.Proof.Data), c20sProofTerm(view.Proof.Proof))),
-							vg.HxL(txsB), vg.B(relayed), vg.L(calls), vg.B(true)),
+						vg.App("CTx", lc.term(), vg.B(true), c20sTxTerm(view), vg.HxL(txsB), vg.B(relayed), vg.L(calls), vg.B(true)),
 						fmt.Sprintf("server chain#%d(n=%d): rpc/core Tx(hash of tx %d of block %d, prove) through light/rpc.Client; block txs=%x; relayed=%v err=%q", k, n, i, h, txsB, relayed, msg))
 				}
 				if cs.Want(id2) {
@@ -314,6 +323,47 @@ func TestVerifC20Server(t *testing.T) {
 						fmt.Sprintf("server chain#%d block %d txs=%x: rpc/core Tx(hash of tx %d, prove=true).Proof.Validate(DataHash) and height/index right = %v", k, h, txsB, i, valid))
 				}
 			}
+		}
+		// TxSearch with proofs: per block, and over the whole index (first page of at most 8, both orders)
+		var blocksT []string
+		for h := int64(1); h <= n; h++ {
+			var txsB [][]byte
+			for _, tx := range blocks[h-1].Data.Txs {
+				txsB = append(txsB, tx)
+			}
+			blocksT = append(blocksT, vg.Tup(vg.Z(h), vg.HxL(txsB)))
+		}
+		type sq struct {
+			query, order string
+			perPage      int
+		}
+		qs := []sq{{"tx.height>0", "asc", 8}, {"tx.height>0", "desc", 8}}
+		for h := int64(1); h <= n; h++ {
+			qs = append(qs, sq{fmt.Sprintf("tx.height=%d", h), "asc", 30})
+		}
+		for _, q := range qs {
+			id := cs.NextID()
+			if !cs.Want(id) {
+				continue
+			}
+			q := q
+			view, err := node.TxSearch(bg, q.query, true, nil, &q.perPage, q.order)
+			if err != nil {
+				t.Fatalf("node tx_search: %v", err)
+			}
+			relayed, calls, msg := c20sRun(lc, func() error { _, e := cl.TxSearch(bg, q.query, true, nil, &q.perPage, q.order); return e })
+			var rs []string
+			for _, x := range view.Txs {
+				if x == nil {
+					rs = append(rs, "None")
+					continue
+				}
+				rs = append(rs, vg.Opt(true, c20sTxTerm(x)))
+			}
+			cs.Add(id, "server/search", len(rs) > 0,
+				vg.App("CSearch", lc.term(), vg.B(true), vg.L(rs), vg.L(blocksT), vg.B(relayed), vg.L(calls), vg.B(true)),
+				fmt.Sprintf("server chain#%d(n=%d): rpc/core TxSearch(%q, prove=true, per_page=%d, %s) -> %d of %d results, through light/rpc.Client; relayed=%v err=%q",
+					k, n, q.query, q.perPage, q.order, len(rs), view.TotalCount, relayed, msg))
 		}
 		// BlockchainInfo over the whole store (at most 20 metas)
 		id := cs.NextID()
@@ -329,7 +379,8 @@ func TestVerifC20Server(t *testing.T) {
 					ms = append(ms, "None")
 					continue
 				}
-				ms = append(ms, vg.Opt(true, vg.Tup(vg.B(m.BlockID.ValidateBasic() == nil), vg.Hx(m.BlockID.Hash), c20sHdrTerm(&m.Header, m.Header.Hash()))))
+				ms = append(ms, vg.Opt(true, vg.Tup(vg.B(m.BlockID.ValidateBasic() == nil), vg.Hx(m.BlockID.Hash), c20sPSHTerm(m.BlockID.PartSetHeader),
+					c20sHdrTerm(&m.Header, m.Header.Hash()))))
 			}
 			cs.Add(id, "server/info", true,
 				vg.App("CInfo", lc.term(), vg.L(ms), vg.B(relayed), vg.L(calls), vg.B(true)),
